@@ -1,6 +1,6 @@
 SPECIFICATION Spec
 CONSTANTS Depth = 2
-          AtomKind = "small"
+          AtomKind = "possmall"
 INVARIANT Agree
 INVARIANT AlgebraOr
 INVARIANT AlgebraAnd
